@@ -269,3 +269,28 @@ Example C06_executed_root_example : exists r,
   norm_eps <= qsqrt 2 /\ 2 <= inject_Z (2 ^ 32) /\ norm_eps * norm_eps <= 2 /\
   1 < sumsq r /\ sumsq r <= 1 + (1 # 2 ^ 51) /\ sumsq r * (qsqrt 2 * qsqrt 2) == 2.
 Proof. exact executed_root_applies. Qed.
+
+(* ---------------- unchanged: feasible, numerically zero, norm requested ---------------- *)
+From TFL Require Import Proofs.LinearSmallNorm.
+
+(* A feasible column whose norm is below 1e-8 is returned unchanged under order 1
+   (norm = tf.where(norm < eps, 1.0, norm): it is NOT scaled up to unit norm) ... *)
+Theorem C06_linear_feasible_fixed_numerically_zero_l1 : forall rt c n w r,
+  lin_valid c n -> length w = n -> lc_norm c = 1%nat ->
+  lin_feasible c w -> qsum (map qabs w) < norm_eps -> lin_project_col rt c w = Some r -> peq r w.
+Proof. exact lin_fixed_small_l1. Qed.
+Print Assumptions C06_linear_feasible_fixed_numerically_zero_l1.
+
+(* ... and under order 2, for every root function that respects == (whatever it
+   returns: exact, rounded, the executed qsqrt). *)
+Theorem C06_linear_feasible_fixed_numerically_zero_l2 : forall rt c n w r,
+  (forall x y, x == y -> rt x == rt y) ->
+  lin_valid c n -> length w = n -> lc_norm c = 2%nat ->
+  lin_feasible c w -> rt (qsum (map (fun x => x * x) w)) < norm_eps -> lin_project_col rt c w = Some r -> peq r w.
+Proof. exact lin_fixed_small_l2. Qed.
+Print Assumptions C06_linear_feasible_fixed_numerically_zero_l2.
+
+Example C06_numerically_zero_example :
+  lin_valid ex_cfg 7 /\ lc_norm ex_cfg = 1%nat /\ lin_feasible ex_cfg (repeat 0 7) /\
+  qsum (map qabs (repeat 0 7)) < norm_eps /\ lin_project_col qsqrt ex_cfg (repeat 0 7) = Some (repeat 0 7).
+Proof. exact small_norm_example. Qed.
